@@ -57,7 +57,8 @@ func randCase(t *rapid.T, s string) string {
 }
 
 // "%25" is the escaped percent sign: followed by "41" the decoded value is the text "%41", which must not be decoded again
-var segAtoms = []string{"a", "b", "x1", "%41", "%5B", "%20", "%C3%A9", "-", "_", "%25", "%25", "41"}
+// "{", "|", "^" and bytes beyond ASCII reach heimdall as they are, although they are not valid in an escaped path
+var segAtoms = []string{"a", "b", "x1", "%41", "%5B", "%20", "%C3%A9", "-", "_", "%25", "%25", "41", "{", "|y", "^", "\u00f6"}
 
 func genSeg(t *rapid.T) (raw, decoded string) {
 	n := rapid.IntRange(1, 3).Draw(t, "segN")
@@ -252,6 +253,8 @@ func buildWorld(l logical, k ruleKnobs, mode config.OperationMode) (*vkit.World,
 		"X-V-Scheme":   "{{ .Request.URL.Scheme }}",
 		"X-V-Host":     "{{ .Request.URL.Host }}",
 		"X-V-Path":     b64t(".Request.URL.Path"),
+		"X-V-RawPath":  b64t(".Request.URL.RawPath"),
+		"X-V-URL":      b64t(".Request.URL.String"),
 		"X-V-Query":    b64t(".Request.URL.RawQuery"),
 		"X-V-Captures": b64t(".Request.URL.Captures | toJson"),
 		"X-V-Hdr":      "{{ .Request.Header " + celString(l.HdrLookup) + " | b64enc }}",
@@ -336,7 +339,7 @@ func (o observation) String() string {
 	return sb.String()
 }
 
-var viewHeaders = []string{"X-V-Method", "X-V-Scheme", "X-V-Host", "X-V-Path", "X-V-Query", "X-V-Captures", "X-V-Hdr", "X-V-Cookie", "X-V-Body", "X-V-Subject", "X-Cond", "X-Multi"}
+var viewHeaders = []string{"X-V-Method", "X-V-Scheme", "X-V-Host", "X-V-Path", "X-V-RawPath", "X-V-URL", "X-V-Query", "X-V-Captures", "X-V-Hdr", "X-V-Cookie", "X-V-Body", "X-V-Subject", "X-Cond", "X-Multi"}
 
 func dec(s string) string {
 	raw, err := base64.StdEncoding.DecodeString(s)
@@ -365,7 +368,7 @@ func observe(w *vkit.World, entry vkit.Entry, l logical) (observation, error) {
 		v := strings.Join(vals, ",")
 
 		switch h {
-		case "X-V-Path", "X-V-Query", "X-V-Captures", "X-V-Hdr", "X-V-Cookie", "X-V-Body":
+		case "X-V-Path", "X-V-RawPath", "X-V-URL", "X-V-Query", "X-V-Captures", "X-V-Hdr", "X-V-Cookie", "X-V-Body":
 			v = dec(v)
 		}
 
